@@ -92,7 +92,7 @@ impl Check for C14 {
         let cfg = gen_cfg(&mut cr, &setup);
         let force_kind = i % 3 == 2;
         let mut pr = r.split("procs");
-        let n = if force_kind { 2 } else { pr.range(3, 6) };
+        let n = if force_kind { 3 } else { pr.range(3, 6) };
         let procs: Vec<ProcSpec> = (0..n).map(|_| gen_proc(&mut pr)).collect();
         let verbose: Vec<bool> = (0..n).map(|_| pr.chance(1, 5)).collect();
         let mut fr = r.split("force");
@@ -309,6 +309,31 @@ impl Check for C14 {
                     }
                 }
                 co.tags.push(format!("force/{}", label));
+                // ... and a forced run is a generation like any other: the next plain
+                // run with nothing changed must find it current and rewrite nothing
+                if co.violations.is_empty() && c.procs.len() > 2 {
+                    let mut cfg3 = cfg2.clone();
+                    cfg3.force = None;
+                    if cfg3 != cfg2 {
+                        w.write_config(&c.setup, &cfg3);
+                    }
+                    let before3 = scen::out_files(&w, &c.setup);
+                    let r3 = scen::run_tool(env, &w, &c.setup, &cfg3, c.procs[2].clone(), false, c.verbose[2]);
+                    co.count("processes", 1);
+                    let after3 = scen::out_files(&w, &c.setup);
+                    let changed: Vec<&String> = before3.iter().filter(|(n, b)| after3.get(*n) != Some(b)).map(|(n, _)| n).collect();
+                    if !r3.res.status.is_ok() {
+                        co.violate("C14/repeat-run-fails".into(), "A: a repeated run with nothing changed succeeds", format!("{}: plain run after the forced run returned {}", label, r3.res.status.short()));
+                    } else if r3.res.regenerated() || !changed.is_empty() {
+                        co.violate(
+                            "C14/spurious-regen/after-forced-run".into(),
+                            "A: re-running with unchanged sources and configuration leaves every output file untouched",
+                            format!("{}: the plain run after a forced run regenerated although nothing changed ({:?})", label, changed),
+                        );
+                    } else {
+                        co.count("cache_hits_on_repeat", 1);
+                    }
+                }
             } else if c.cache_state == "matching" {
                 // neither force source, matching cache: nothing may be rewritten
                 let changed: Vec<&String> = before_files
